@@ -651,6 +651,64 @@ func runC14(p *Program, r *Report) {
 	})
 	checkCoverageGate(p, r)
 	checkOutputLayout(p, r, or, "R14e", "(*MapPollard).GetMissingPositions", 0, "")
+	checkHeldTargetsUntouched(p, r)
+}
+
+// checkHeldTargetsUntouched (R14f): the stand-alone GetMissingPositions is
+// documented to sort the desired targets it is given, but the targets of the
+// proof the caller already holds stay parallel to the caller's hashes only if
+// they are not reordered: no mutation sink may be reachable with that slice
+// (slice-ownership engine E3, one entry, one protected parameter).
+func checkHeldTargetsUntouched(p *Program, r *Report) {
+	r.Rule("R14f", "HELD-PROOF-UNTOUCHED: computing the missing positions does not reorder or overwrite the targets of the proof the caller already holds (they stay parallel to the caller's hashes)")
+	fn := p.Func("GetMissingPositions")
+	if fn == nil {
+		r.MissingAnchor("R14f", "GetMissingPositions", "stand-alone missing-positions function not found")
+		return
+	}
+	it := newInterp(p)
+	seed := seedEntry(it, p, fn)
+	// the held proof's targets: the first []uint64 parameter
+	var held *Obj
+	for i, par := range fn.Params {
+		if isPositionSlice(par.Type()) && i < len(seed.tokens)+8 {
+			for _, tok := range seed.tokens {
+				if tok.Name == par.Name() && held == nil {
+					held = tok
+				}
+			}
+			if held != nil {
+				break
+			}
+		}
+	}
+	if held == nil {
+		r.Undecided("R14f", "GetMissingPositions/held-targets", p.Pos(fn.Pos()), "cannot identify the parameter carrying the held proof's targets")
+		return
+	}
+	for round := 0; round < 12; round++ {
+		it.round++
+		it.changed = false
+		it.analyze(seed.fn, seed.args, nil)
+		if !it.changed {
+			break
+		}
+	}
+	key := "GetMissingPositions/held-targets"
+	for _, e := range it.order {
+		if e.Obj != held {
+			continue
+		}
+		switch e.Kind {
+		case evMutate:
+			r.Violate("R14f", key, posOf(p, e.In), "the targets of the held proof are written: "+e.What+" in "+p.FuncName(e.In.Parent())+"; the caller's parallel hashes no longer belong to them", e.Stack...)
+			return
+		case evUndecided:
+			r.Undecided("R14f", key, posOf(p, e.In), "the held proof's targets are "+e.What)
+			return
+		}
+	}
+	r.Discharge("R14f", key, p.Pos(fn.Pos()), "no mutation sink is reachable with the held proof's targets ("+held.Name+")", true)
 }
 
 // checkCoverageGate (R14c): in GetProofSubset every success return is
@@ -882,6 +940,47 @@ func runC05(p *Program, r *Report) {
 		}
 	}
 	r.Floor("R05b", "forest block applications", n, 2)
+	// the verifier-state update: after its verifier accepted the block it must not
+	// look at the proof hashes again (their number, their contents) - only the
+	// verifier and the hashing core may read them
+	if upd := p.Func("(*Stump).Update"); upd != nil {
+		va := resolveVerifyAnchors(p)
+		var hits []string
+		firstPos := ""
+		for _, g := range sortedFuncs(p, p.StaticReach(upd)) {
+			if g == va.verify || g == va.core || (va.core != nil && p.StaticReach(va.core)[g]) || (va.verify != nil && g != upd && p.StaticReach(va.verify)[g] && !isStumpMethod(p, g)) {
+				continue
+			}
+			for _, b := range g.Blocks {
+				for _, in := range b.Instrs {
+					var t types.Type
+					var idx int
+					switch x := in.(type) {
+					case *ssa.Field:
+						t, idx = x.X.Type(), x.Field
+					case *ssa.FieldAddr:
+						t, idx = x.X.Type(), x.Field
+					default:
+						continue
+					}
+					if p.localNamed(t, "Proof") && fieldName(t, idx) == "Proof" {
+						hits = append(hits, p.FuncName(g)+" at "+posOf(p, in))
+						if firstPos == "" {
+							firstPos = posOf(p, in)
+						}
+					}
+				}
+			}
+		}
+		key := "(*Stump).Update/reads-proof-hashes"
+		if len(hits) > 0 {
+			r.Violate("R05b", key, firstPos, "the verifier-state update reads Proof.Proof outside its verifier and the hashing core ("+strings.Join(hits, "; ")+"): an encoding its own verifier accepts (trailing unused proof hashes) could be refused or applied differently", "in (*Stump).Update")
+		} else {
+			r.Discharge("R05b", key, p.Pos(upd.Pos()), "outside the verifier and the hashing core the verifier-state update never reads Proof.Proof", true)
+		}
+	} else {
+		r.MissingAnchor("R05b", "(*Stump).Update", "verifier-state update not found")
+	}
 
 	// R05c = R01a
 	sub := NewReport("C05")
@@ -1006,6 +1105,10 @@ func checkNoSilentHole(p *Program, r *Report) {
 		}
 	}
 	r.Floor("R02c", "proof-hash fetch sites in the provers", n, 2)
+}
+
+func isStumpMethod(p *Program, f *ssa.Function) bool {
+	return f.Signature.Recv() != nil && p.localNamed(f.Signature.Recv().Type(), "Stump")
 }
 
 func isUint64(t types.Type) bool {
